@@ -375,6 +375,56 @@ def forms_task(task):
     return n, viols
 
 
+# ------------------------------------------------------------------ (F) value regimes: small levers, nano-scale numbers, far from the origin
+REGIMES_F = [("unit", 1.0, 0.0), ("nano", 1e-9, 0.0), ("micro", 1e-6, 0.0), ("kilo", 1e3, 0.0), ("far-2000", 1.0, 2000.0), ("far-1e6", 1.0, 1e6)]
+LEVERS_F = [1.0, 1e-2, 1e-3, 1e-5, 1e-8]
+
+
+def regime_task(task):
+    """rotate / rotate_from_angax about anchors at a lever of 1 ... 1e-8 object sizes, with all numbers scaled to nano / kilo
+    units or shifted far from the origin; the position must move on the circle about the anchor whatever the lever"""
+    name, scale, shift = task
+    n, viols = 0, []
+    for L in (1, 3):
+        P0, M0 = init_state(L)
+        P = (P0 + 0.3) * scale + shift
+        for lever in LEVERS_F:
+            for rkey in ("s", "v2"):
+                for st in ("auto", 0):
+                    for form in ("rotate", "angax"):
+                        anc = P[0] + np.array((0.6, -0.3, 0.2)) * lever * scale
+                        o = mk("Sensor", P, M0)
+                        m = PathModel(P, M0)
+                        n += 1
+                        try:
+                            if form == "rotate":
+                                o.rotate(Rot(ROT[rkey]), anchor=anc, start=st)
+                                m.rotate(Rot(ROT[rkey]).as_matrix(), anc, st)
+                            else:
+                                ang = ANG[rkey]
+                                o.rotate_from_angax(ang, AXV, anchor=anc, start=st)
+                                a = np.deg2rad(np.array(ang, float))
+                                ax = AXV / np.linalg.norm(AXV)
+                                from scipy.spatial.transform import Rotation as R
+
+                                m.rotate(R.from_rotvec(a[..., None] * ax if a.ndim else a * ax).as_matrix(), anc, st)
+                        except Exception as e:
+                            viols.append((name, lever, rkey, st, form, f"raised {type(e).__name__}"))
+                            continue
+                        Pi, Mi = read(o)
+                        mp, mm = m.arrays()
+                        if len(Pi) != len(mp):
+                            viols.append((name, lever, rkey, st, form, f"path length {len(Pi)} != model {len(mp)}"))
+                            continue
+                        # error measured against the lever (the quantity the rotation acts on) plus rounding of the absolute numbers
+                        size = lever * scale
+                        tol = 1e-9 * size + 4e-16 * (abs(shift) + 10 * scale) * 50
+                        dp = float(np.max(np.abs(Pi - mp)))
+                        if dp > tol or float(np.max(np.abs(Mi - mm))) > TOL:
+                            viols.append((name, lever, rkey, st, form, f"position off by {dp:.3g} (lever {size:.3g}, tolerance {tol:.3g})"))
+    return n, viols
+
+
 # ------------------------------------------------------------------ (C) rejected calls
 def bad_calls():
     from scipy.spatial.transform import Rotation as R
@@ -574,13 +624,23 @@ def run(tier, seed):
     stE, vE = abstraction(full)
     viols += vE
 
+    # (F) value regimes
+    resF = common.pmap(regime_task, REGIMES_F, chunk=1)
+    nF = sum(r[0] for r in resF)
+    for n_, vs in resF:
+        for name, lever, rkey, st, form, msg in vs:
+            viols.append({"key": f"C09|regime={name}|lever={lever:g}|{form}|{msg.split(' ')[0]}",
+                          "what": f"regime {name} lever {lever:g} {form} rot={rkey} start={st}: {msg}",
+                          "case": {"part": "F", "regime": name}, "observed": msg})
+
     harness = []
     if nraised < 0.8 * nC:
         harness.append(f"vacuous: only {nraised} of {nC} malformed calls were rejected")
     cov = {
         "states": states + len(stE["abstract_states"]),
-        "transitions": trans + nB + nC + stE["transitions"],
-        "traces_validated_against_impl": trans + nB + nC + stE["transitions"],
+        "transitions": trans + nB + nC + nF + stE["transitions"],
+        "traces_validated_against_impl": trans + nB + nC + nF + stE["transitions"],
+        "value_regime_transitions": nF, "value_regimes": [r[0] for r in REGIMES_F], "levers": LEVERS_F,
         "samples": [{"kind": "Sensor", "L": 3, "history": h} for p in parts.values() for h in p["sample"]][:4],
         "exhaustive": not any(p["cap_hit"] for p in parts.values()),
         "parts": parts,
@@ -605,7 +665,7 @@ def replay(case):
     if part == "D":
         n, bad = box_task([case["L"]])
         return {"violated": bool(bad), "observed": [list(map(str, b)) for b in bad[:5]]}
-    P, M = np.array(case["P"]), np.array(case["M"])
+    P, M = (np.array(case["P"]), np.array(case["M"])) if "P" in case else (None, None)
     if part == "A":
         op = tuple(case["op"])
         n, vs, _ = expand((case["kind"], P, M, [op], False))
@@ -614,6 +674,9 @@ def replay(case):
         n, vs = forms_task((case["kind"], P, M, [case["start"]]))
         vs = [v for v in vs if v[0] == case["form"] and v[1] == case["rkey"] and v[2] == case["akey"]]
         return {"violated": bool(vs), "observed": [list(map(str, v)) for v in vs]}
+    if part == "F":
+        n, vs = regime_task([r for r in REGIMES_F if r[0] == case["regime"]][0])
+        return {"violated": bool(vs), "observed": [list(map(str, v)) for v in vs[:5]]}
     if part == "C":
         n, raised, vs = reject_task((case["kind"], P, M))
         vs = [v for v in vs if v[0] == case["name"]]
